@@ -613,4 +613,36 @@ func c17suspend(p *Prog, r *Report) {
 		wait = c
 	}
 	r.Check(tr != nil && (wait == nil || dominates(tr, wait)), rule, "Suspend:transition-before-wait", p.pos(sus.Pos()), fnName(sus), "the state changes before in-flight routines are awaited (new requests are refused at once)", "Suspend does not transition to Suspended before waiting for routines")
+	// the state change itself cannot fail or be skipped: Node.transition stores the new state on every
+	// path — it is not conditional on what the application's OnStateChanged callback answers
+	trf := p.Func(NODE, "Node", "transition")
+	if trf == nil {
+		r.Anchor(rule, "node.(*Node).transition")
+		return
+	}
+	var sets []ssa.CallInstruction
+	for _, c := range callsIn(trf, func(f *types.Func) bool { return f.Name() == "SetState" }) {
+		a := c.Common().Args
+		if len(a) > 0 && len(trf.Params) > 1 && unwrap(a[len(a)-1]) == ssa.Value(trf.Params[1]) {
+			sets = append(sets, c)
+		}
+	}
+	okSet := len(sets) > 0
+	for _, b := range trf.Blocks {
+		ret, isRet := b.Instrs[len(b.Instrs)-1].(*ssa.Return)
+		if !isRet || (b.Index != 0 && len(b.Preds) == 0) {
+			continue
+		}
+		dom := false
+		for _, c := range sets {
+			if dominates(c, ret) {
+				dom = true
+			}
+		}
+		if !dom {
+			okSet = false
+		}
+	}
+	r.Check(okSet, rule, "transition:state-set-unconditionally", p.pos(trf.Pos()), fnName(trf), "SetState(state) is executed on every path through transition",
+		"Node.transition can return without storing the new state (e.g. when the application's OnStateChanged callback fails): a node that must suspend (too many undetermined events, evicted) stays Babbling and keeps creating events")
 }
